@@ -79,6 +79,12 @@ structure SObj (N : Type) where
   name : Key
   fields : Dict N
 
+instance {N : Type} [DecidableEq N] : DecidableEq (SObj N) := fun a b =>
+  match a, b with
+  | ⟨t1, n1, f1⟩, ⟨t2, n2, f2⟩ =>
+    if h : t1 = t2 ∧ n1 = n2 ∧ f1 = f2 then isTrue (by rw [h.1, h.2.1, h.2.2])
+    else isFalse (by intro e; cases e; exact h ⟨rfl, rfl, rfl⟩)
+
 /-- `Serialize(object, attributeTypes)` (serializer.cpp:149-190). -/
 def serializeObject {N : Type} (o : SObj N) : JValue N :=
   .obj (serializeM o.fields ++ [(typeKey, .str o.typeName)])
